@@ -10,9 +10,9 @@ node), and — non-pruning — each commit write failed, applied and not applied
 Each such way is an ordinary linear command list; its later behaviour is compared
 with a twin world that never opened the batch.
 """
-from ..core import HarnessError, Stats, Violation, deep, hx
+from ..core import HarnessError, Stats, Violation, deep, hx, unhx
 from ..hgen import HistoryGen, make_pool, make_values, probe_keys
-from ..hworld import HWorld
+from ..hworld import ClientAbort, HWorld
 
 ID = "C05"
 LEVEL = "fault_enumeration"
@@ -41,6 +41,7 @@ PROBES = [
     "twin-compared",
     "pruning-batch",
     "non-pruning-batch",
+    "bystander-batch-while-open",
 ]
 FAULTS = [
     "batch-abort",
@@ -76,6 +77,42 @@ class World(HWorld):
         self.judge = judge
         self.commit_writes = None
         self.batch_roots = []
+
+    # -- an unrelated trie of the same process runs a whole batch of its own (possibly while
+    # the batch under test is open): blocks must not share anything
+    def op_bybatch(self, h, cmd):
+        from trie import HexaryTrie
+
+        from ..simdb import SimDB
+
+        if not hasattr(self, "by"):
+            self.by_db = SimDB()
+            self.by = HexaryTrie(self.by_db, prune=bool(cmd.get("prune")))
+            self.by_model = {}
+        model = dict(self.by_model)
+        try:
+            with self.by.squash_changes() as b:
+                for k, v in cmd["ops"]:
+                    if v:
+                        b[unhx(k)] = unhx(v)
+                        model[unhx(k)] = unhx(v)
+                    else:
+                        del b[unhx(k)]
+                        model.pop(unhx(k), None)
+                if cmd.get("exit") == "E":
+                    raise ClientAbort("bystander abort")
+        except ClientAbort:
+            model = self.by_model
+        except Exception as e:
+            self.viol("abort-later-divergence", f"an unrelated trie's own batch failed with {e!r} while another trie's batch was open")
+        self.by_model = model
+        from ..models.mpt import RefMPT
+
+        r = RefMPT(model)
+        if self.by.root_hash != r.root_hash or any(self.by_db.raw().get(x) != body for x, body in r.body.items()):
+            self.viol("commit-node-missing", "an unrelated trie's batch did not commit its own nodes / root (blocks of different tries interfere)")
+        self.st.probe("bystander-batch-while-open" if h.bgen is not None else "bystander-batch")
+        return "ok"
 
     # -- block entry -------------------------------------------------------
     def snapshot_pre(self, h):
@@ -264,9 +301,13 @@ def generate(rng):
         ops.append(g.mutation("batch"))
     shadow_after = g.batch_present
     g.batch_present = None
+    if rng.random() < 0.35:
+        by = {"op": "bybatch", "prune": int(rng.random() < 0.5), "exit": rng.choice(["commit", "commit", "E"]),
+              "ops": [[hx(rng.choice(pool)), hx(rng.choice(values)) if rng.random() < 0.8 else ""] for _ in range(rng.randint(1, 4))]}
+        ops.insert(rng.randrange(len(ops) + 1), by)
     # suffix: operations that touch what the batch touched, and read-backs
     suffix = []
-    touched = [c["k"] for c in ops]
+    touched = [c["k"] for c in ops if "k" in c]
     g.lookups = (0, 2)
     for _ in range(rng.choice([2, 4, 6, 10])):
         if touched and rng.random() < 0.5:
@@ -316,6 +357,8 @@ def explore(rng, st):
         st.probe("abort-after-0-ops" if p == 0 else ("abort-after-all-ops" if p == k else "abort-mid-batch"))
     # 3. the p-th batch operation raises and the client does not catch it
     for p in range(k):
+        if ops[p]["op"] == "bybatch":
+            continue
         op = dict(ops[p])
         op["uncaught"] = True
         op["wh"] = "all"
@@ -327,4 +370,4 @@ def explore(rng, st):
     if not prune:
         for n in range(1, writes + 1):
             for applied in (0, 1):
-                execute(variant(base, (k, [{"op": "bcommit", "fw": [n, applied], "_last": writes}])), st)
+                execute(variant(base, (k, [{"op": "bcommit", "fw": [n, applied, "EKO"[(n + applied) % 3]], "_last": writes}])), st)
